@@ -1,8 +1,9 @@
 (* GrammarAllProofsTS.v — TypeScript: the function shape with the follow-up "{" or ": type {"
    (cand_function, follow_rettype with until_brace_type) and the arrow shape, on the grammar of
    GrammarAll.v.  The return-type scan stops at an unbalanced ")" and at ";", so candidates inside
-   conditions, parameter groups and statements are rejected.  The tokens of a return type (type_tok)
-   have a text different from "(" and ")", which the scan would reject. *)
+   conditions, parameter groups and statements are rejected.  A return type (type_seq) consists of type
+   tokens (text different from "(" and ")") and balanced parenthesis groups, which the scan accepts; no candidate of
+   either shape is accepted inside it (type_next_ok). *)
 From Verif Require Import Base Regex Token TokEngine Headers Blocks Spec HeaderSpec LexShapes Grammar GrammarAll.
 From Verif Require Import GrammarProofsParen GrammarProofsBrace GrammarProofsHeaders GrammarAllProofsTok.
 From Verif Require Import GrammarAllProofsSel GrammarAllProofsCand GrammarAllProofsItems GrammarAllProofsJava.
@@ -99,41 +100,160 @@ Qed.
 Lemma good_function_rettype l : good l cand_function follow_rettype.
 Proof. apply good_function_f; [apply fshift_rettype | apply isuf_rejects_rettype]. Qed.
 
-(* ---------- no candidate in a clause (no parenthesis before the "{"): chain of GrammarAllProofsCand.v ---------- *)
-Lemma clause_chain cl o B : forallb clause_tok cl = true -> is_lbrace o = true -> chain (cl ++ o :: B).
+(* ---------- the return type (type_seq): no candidate of either shape inside it ---------- *)
+(* a suffix of a return type at the top level of its groups, followed by the body's "{" *)
+Definition tsuf (W : list token) : Prop := exists r o B, W = r ++ o :: B /\ type_seq r /\ is_lbrace o = true.
+
+Lemma tsuf_intro r o B : type_seq r -> is_lbrace o = true -> tsuf (r ++ o :: B).
+Proof. intros H1 H2. exists r, o, B. auto. Qed.
+
+Lemma tsuf_tail x W : tsuf (x :: W) -> is_lparen x = false -> is_lbrace x = false -> tsuf W.
 Proof.
-  intros Hcl Ho. induction cl as [|t cl IH]; [apply chain_end; left; exact Ho|].
-  cbn [forallb] in Hcl. apply andb_prop in Hcl as [Ht Hcl]. cbn [app]. apply chain_cons; [|apply IH; exact Hcl].
-  apply clause_tok_plain in Ht. apply plain_inv in Ht. apply Ht.
+  intros (r & o & B & E & Hr & Ho) H1 H2. destruct Hr as [|t r' Ht Hn Hr'|o1 g c1 r' Ho1 Hg Hc1 Hr'].
+  - cbn [app] in E. injection E as -> _. congruence.
+  - cbn [app] in E. injection E as -> ->. apply tsuf_intro; assumption.
+  - cbn [app] in E. injection E as -> _. congruence.
 Qed.
 
-(* an operator followed by clause tokens, then "{" *)
-Lemma clause_no_acc c f t cl o B : cshift c -> fshift f -> (forall W, chain W -> c W 0 = None) ->
-  is_lparen t = false -> forallb clause_tok cl = true -> is_lbrace o = true ->
-  no_acc c f (t :: cl) (o :: B).
+Lemma tsuf_tail_name x W : tsuf (x :: W) -> is_name x = true -> tsuf W.
+Proof. intros H Hn. apply (tsuf_tail x W H); apply (name_not_symbol _ _ Hn). Qed.
+Lemma tsuf_tail_keyword x W : tsuf (x :: W) -> is_keyword x = true -> tsuf W.
+Proof. intros H Hn. apply (tsuf_tail x W H); apply (keyword_not_symbol _ _ Hn). Qed.
+Lemma tsuf_tail_operator x W s : tsuf (x :: W) -> is_operator x s = true -> tsuf W.
+Proof. intros H Hn. apply (tsuf_tail x W H); apply (operator_not_symbol _ _ _ Hn). Qed.
+
+Lemma tsuf_nonempty W : tsuf W -> W <> [].
+Proof. intros (r & o & B & -> & _ & _). destruct r; discriminate. Qed.
+
+(* a name of the type is not followed by "(" *)
+Lemma tsuf_plain W : tsuf W -> cand_plain W 0 = None.
 Proof.
-  intros Hc Hf Hch Ht Hcl Ho.
-  assert (Hno : forall cl', forallb clause_tok cl' = true -> no_acc c f cl' (o :: B)).
-  { induction cl' as [|x cl' IH]; intros Hcl'; [apply no_acc_nil|].
-    apply (no_acc_cons c f Hc Hf).
-    - apply acc_cand_none. apply Hch. apply (clause_chain (x :: cl') o B Hcl' Ho).
-    - cbn [forallb] in Hcl'. apply andb_prop in Hcl' as [_ Hcl']. apply IH. exact Hcl'. }
-  apply (no_acc_cons c f Hc Hf); [|apply Hno; exact Hcl].
-  apply acc_cand_none. apply Hch. apply chain_cons; [exact Ht | apply clause_chain; assumption].
+  intros (r & o & B & -> & Hr & Ho). destruct Hr as [|t r' Ht Hn Hr'|o1 g c1 r' Ho1 Hg Hc1 Hr']; cbn [app]; rewrite cand_plain_0.
+  - rewrite (symbol_not_name _ _ Ho). reflexivity.
+  - destruct (is_name t) eqn:En; [|reflexivity].
+    assert (E : ge0 (r' ++ o :: B) = None).
+    { destruct r' as [|p r'']; cbn [app]; unfold ge0.
+      - rewrite (lbrace_not_lparen o Ho). reflexivity.
+      - cbn [type_next_ok] in Hn. rewrite En in Hn. cbn [andb] in Hn. apply negb_true_iff in Hn. rewrite Hn. reflexivity. }
+    rewrite E. reflexivity.
+  - rewrite (symbol_not_name _ _ Ho1). reflexivity.
+Qed.
+
+Lemma tsuf_function W : tsuf W -> cand_function W 0 = None.
+Proof.
+  intros H. pose proof (tsuf_plain W H) as HP. destruct W as [|t W']; [exfalso; exact (tsuf_nonempty _ H eq_refl)|].
+  rewrite cand_function_0. destruct (kw_is t s_function) eqn:Ek; [|exact HP].
+  rewrite (tsuf_plain W' (tsuf_tail_keyword t W' H (kw_is_keyword _ _ Ek))). reflexivity.
+Qed.
+
+(* the run of groups at the head of such a suffix: if it ends at "=>", the next token is not "{" *)
+Lemma type_seq_run r : type_seq r -> forall o B, is_lbrace o = true ->
+  sym_at (r ++ o :: B) (groups_len (r ++ o :: B) 0) s_arrow = true ->
+  sym_at (r ++ o :: B) (S (groups_len (r ++ o :: B) 0)) lbrace = false.
+Proof.
+  induction 1 as [|t r Ht Hn Hr IH|o1 g c1 r Ho1 Hg Hc1 Hr IH]; intros o B Ho.
+  - cbn [app]. rewrite groups_len_outside_stop by (apply lbrace_not_lparen; exact Ho).
+    unfold sym_at. cbn [nth_error]. rewrite (symbol_other o lbrace s_arrow Ho) by discriminate. discriminate.
+  - assert (Hp : plain t = true) by (apply clause_tok_plain, type_tok_clause, Ht).
+    apply plain_inv in Hp as (P1 & _). cbn [app]. rewrite groups_len_outside_stop by exact P1.
+    unfold sym_at at 1. cbn [nth_error]. intros Ha.
+    change (sym_at (t :: r ++ o :: B) 1 lbrace) with (sym_at (r ++ o :: B) 0 lbrace).
+    destruct r as [|p r'].
+    + cbn [type_next_ok] in Hn. rewrite Ha in Hn. discriminate.
+    + pose proof (type_seq_brace_free _ Hr) as Hbf. inversion Hbf as [|? ? [Q _] _]; subst.
+      cbn [app]. unfold sym_at. cbn [nth_error]. exact Q.
+  - replace ((o1 :: g ++ c1 :: r) ++ o :: B) with (o1 :: g ++ c1 :: (r ++ o :: B)) by (norm_app; reflexivity).
+    rewrite groups_len_outside_lparen by exact Ho1.
+    rewrite (groups_len_inner g Hg 1%Z) by lia.
+    rewrite groups_len_inside_rparen by (assumption || lia).
+    replace (1 - 1)%Z with 0%Z by lia.
+    set (e := groups_len (r ++ o :: B) 0).
+    replace (S (length g + S e)) with (length (o1 :: g ++ [c1]) + e) by (norm_len; lia).
+    replace (S (length (o1 :: g ++ [c1]) + e)) with (length (o1 :: g ++ [c1]) + S e) by lia.
+    replace (o1 :: g ++ c1 :: r ++ o :: B) with ((o1 :: g ++ [c1]) ++ (r ++ o :: B)) by (norm_app; reflexivity).
+    rewrite !sym_at_shift. apply IH. exact Ho.
+Qed.
+
+Lemma tsuf_run v : tsuf v -> sym_at v (groups_len v 0) s_arrow = true -> sym_at v (S (groups_len v 0)) lbrace = false.
+Proof. intros (r & o & B & -> & Hr & Ho). apply type_seq_run; assumption. Qed.
+
+Lemma ts_arrow_tail pre v j : tsuf v -> groups_end (pre ++ v) (length pre) = Some j ->
+  sym_at (pre ++ v) j s_arrow = true -> sym_at (pre ++ v) (S j) lbrace = false.
+Proof.
+  intros Hv E. apply groups_end_pre in E. subst j. rewrite sym_at_shift.
+  replace (S (length pre + groups_len v 0)) with (length pre + S (groups_len v 0)) by lia.
+  rewrite sym_at_shift. apply (tsuf_run _ Hv).
+Qed.
+
+Lemma tsuf_arrow_nc w : tsuf w -> forall n j, arrow_nc w = Some (n, j) -> sym_at w j lbrace = false.
+Proof.
+  intros Hw n j E. unfold arrow_nc in E.
+  destruct w as [|x0 w1]; [discriminate|]. change (name_at (x0 :: w1) 0) with (is_name x0) in E.
+  destruct (is_name x0) eqn:E0; [|discriminate]. cbn [andb] in E.
+  pose proof (tsuf_tail_name x0 w1 Hw E0) as H1.
+  destruct w1 as [|x1 w2]; [discriminate|]. change (op_at (x0 :: x1 :: w2) 1 s_eq) with (is_operator x1 s_eq) in E.
+  destruct (is_operator x1 s_eq) eqn:E1; [|discriminate].
+  pose proof (tsuf_tail_operator x1 w2 s_eq H1 E1) as H2.
+  destruct w2 as [|x2 w3].
+  - discriminate.
+  - change (kw_at (x0 :: x1 :: x2 :: w3) 2 s_async) with (kw_is x2 s_async) in E.
+    destruct (kw_is x2 s_async) eqn:E2; cbv zeta iota in E.
+    + pose proof (tsuf_tail_keyword x2 w3 H2 (kw_is_keyword _ _ E2)) as H3.
+      destruct (groups_end (x0 :: x1 :: x2 :: w3) 3) as [j0|] eqn:Eg; [|discriminate].
+      destruct (sym_at (x0 :: x1 :: x2 :: w3) j0 s_arrow) eqn:Ea; [|discriminate]. injection E as <- <-.
+      exact (ts_arrow_tail [x0; x1; x2] w3 j0 H3 Eg Ea).
+    + destruct (groups_end (x0 :: x1 :: x2 :: w3) 2) as [j0|] eqn:Eg; [|discriminate].
+      destruct (sym_at (x0 :: x1 :: x2 :: w3) j0 s_arrow) eqn:Ea; [|discriminate]. injection E as <- <-.
+      exact (ts_arrow_tail [x0; x1] (x2 :: w3) j0 H2 Eg Ea).
+Qed.
+
+Lemma tsuf_arrow w : tsuf w -> acc cand_arrow follow_brace w 0 = None.
+Proof.
+  intros Hw. destruct w as [|t W]; [reflexivity|]. apply acc_none_intro. intros n j E.
+  rewrite cand_arrow_0 in E. destruct (kw_is t s_const) eqn:Ek.
+  - pose proof (tsuf_tail_keyword t W Hw (kw_is_keyword _ _ Ek)) as HW.
+    destruct (arrow_nc W) as [[n' j']|] eqn:Ea; [|discriminate]. cbn [shift1] in E. injection E as <- <-.
+    rewrite follow_brace_S. exact (tsuf_arrow_nc W HW n' j' Ea).
+  - exact (tsuf_arrow_nc (t :: W) Hw n j E).
+Qed.
+
+(* no accepted candidate at any position of ": type" *)
+Lemma type_seq_no_acc l c f (G : good l c f) (Ht : forall W, tsuf W -> acc c f W 0 = None) r o B :
+  type_seq r -> is_lbrace o = true -> no_acc c f r (o :: B).
+Proof.
+  pose proof (g_c _ _ _ G) as Hc. pose proof (g_f _ _ _ G) as Hf.
+  intros Hr Ho. induction Hr as [|t r Htk Hn Hr IH|o1 g c1 r Ho1 Hg Hc1 Hr IH].
+  - apply no_acc_nil.
+  - apply (no_acc_cons c f Hc Hf); [|exact IH].
+    apply Ht. apply (tsuf_intro (t :: r) o B); [apply tsq_tok; assumption | exact Ho].
+  - change (o1 :: g ++ c1 :: r) with ([o1] ++ g ++ [c1] ++ r).
+    apply (no_acc_app c f Hc Hf); [eapply (symbol_no_acc l c f G); exact Ho1|].
+    apply (no_acc_app c f Hc Hf).
+    + apply (inner_no_acc l c f G); [exact Hg|]. cbn [app hd_ok]. apply rparen_closer. exact Hc1.
+    + apply (no_acc_app c f Hc Hf); [eapply (symbol_no_acc l c f G); exact Hc1 | exact IH].
+Qed.
+
+Lemma rettype_no_acc l c f (G : good l c f) (Ht : forall W, tsuf W -> acc c f W 0 = None) colon ty o B :
+  is_operator colon s_colon = true -> type_seq ty -> is_lbrace o = true -> no_acc c f (colon :: ty) (o :: B).
+Proof.
+  intros Hco Hty Ho. apply (no_acc_cons c f (g_c _ _ _ G) (g_f _ _ _ G)).
+  - apply (g_sym _ _ _ G); [eapply operator_not_name | eapply operator_not_keyword]; exact Hco.
+  - apply (type_seq_no_acc l c f G Ht); assumption.
 Qed.
 
 (* ---------- the return type accepted ---------- *)
-Lemma ubt_type ty o B : forallb type_tok ty = true -> is_lbrace o = true ->
-  until_brace_type (ty ++ o :: B) 0 = true.
+Lemma ubt_type ty : type_seq ty -> forall o B, is_lbrace o = true -> until_brace_type (ty ++ o :: B) 0 = true.
 Proof.
-  intros Hty Ho. induction ty as [|t ty IH].
+  induction 1 as [|t ty Ht _ _ IH|o1 g c1 ty Ho1 Hg Hc1 _ IH]; intros o B Ho.
   - cbn [app]. rewrite ubt_top by (apply lbrace_not_lparen; exact Ho). unfold is_lbrace in Ho. rewrite Ho. reflexivity.
-  - cbn [forallb] in Hty. apply andb_prop in Hty as [Ht Hty].
-    unfold type_tok in Ht. apply andb_prop in Ht as [Ht Q2]. apply andb_prop in Ht as [Ht Q1].
+  - unfold type_tok in Ht. apply andb_prop in Ht as [Ht Q2]. apply andb_prop in Ht as [Ht Q1].
     unfold clause_tok in Ht. apply andb_prop in Ht as [Ht H2]. apply andb_prop in Ht as [Hp H1].
     apply negb_true_iff in H1, H2, Q1, Q2. apply plain_inv in Hp as (P1 & P2 & P3 & _).
     cbn [app]. rewrite ubt_top by exact P1. unfold is_lbrace in P3. rewrite P3.
     change s_semi with semicolon. rewrite H2, H1, Q1, Q2. cbn [orb]. apply IH; assumption.
+  - replace ((o1 :: g ++ c1 :: ty) ++ o :: B) with (o1 :: g ++ c1 :: (ty ++ o :: B)) by (norm_app; reflexivity).
+    rewrite ubt_top_lparen by exact Ho1. rewrite (ubt_inner_deep g Hg 1%Z) by lia.
+    rewrite ubt_deep_rparen by (assumption || lia). replace (1 - 1)%Z with 0%Z by lia. apply IH. exact Ho.
 Qed.
 
 Lemma op_at_app_hd P t R s : op_at (P ++ t :: R) (length P) s = is_operator t s.
@@ -144,10 +264,10 @@ Lemma rettype_brace gs o B : is_lbrace o = true -> follow_rettype (gs ++ o :: B)
 Proof. intros Ho. rewrite follow_rettype_unfold, sym_at_app_hd. unfold is_lbrace in Ho. rewrite Ho. reflexivity. Qed.
 
 Lemma rettype_type gs colon ty o B :
-  is_operator colon s_colon = true -> forallb type_tok ty = true -> is_lbrace o = true ->
+  is_operator colon s_colon = true -> type_seq ty -> is_lbrace o = true ->
   follow_rettype (gs ++ colon :: ty ++ o :: B) (length gs) = true.
 Proof.
-  intros Hco Hty Ho. rewrite follow_rettype_unfold, op_at_app_hd, Hco, skipn_app_hd, (ubt_type ty o B Hty Ho).
+  intros Hco Hty Ho. rewrite follow_rettype_unfold, op_at_app_hd, Hco, skipn_app_hd, (ubt_type ty Hty o B Ho).
   apply orb_true_r.
 Qed.
 
@@ -181,7 +301,6 @@ Proof.
     + apply (Seg_none _ _ cshift_arrow fshift_brace). apply ar_no_function; assumption.
   - (* name groups : type *)
     assert (Hcl : is_lparen colon = false) by (eapply operator_not_symbol; exact Hco).
-    pose proof (type_toks_clause ty Hty) as Hcty.
     left. split.
     + change (nm :: gs ++ colon :: ty) with ((nm :: gs) ++ colon :: ty).
       change [mkHeader (off + 0) off (off + (1 + length gs))] with ([mkHeader (off + 0) off (off + (1 + length gs))] ++ []).
@@ -192,14 +311,14 @@ Proof.
         apply method_head_f; try assumption; [cbn [hd_ok]; unfold nlp; rewrite Hcl; reflexivity | discriminate|].
         rewrite (fshift_S _ _ _ _ fshift_rettype). apply rettype_type; assumption.
       * apply (Seg_none _ _ cshift_function fshift_rettype).
-        apply clause_no_acc; try assumption; [apply cshift_function | apply fshift_rettype | apply chain_function].
+        apply (rettype_no_acc LTypeScript _ _ GF); try assumption.
+        intros W HW. apply acc_cand_none, tsuf_function, HW.
     + apply (Seg_none _ _ cshift_arrow fshift_brace).
       change (nm :: gs ++ colon :: ty) with ((nm :: gs) ++ colon :: ty). apply ar_no_ret.
       * apply ar_no_method; assumption.
-      * apply clause_no_acc; try assumption; [apply cshift_arrow | apply fshift_brace | apply chain_arrow].
+      * apply (rettype_no_acc LTypeScript _ _ (good_arrow LTypeScript)); try assumption. apply tsuf_arrow.
   - (* function name groups : type *)
     assert (Hcl : is_lparen colon = false) by (eapply operator_not_symbol; exact Hco).
-    pose proof (type_toks_clause ty Hty) as Hcty.
     left. split.
     + change (fk :: nm :: gs ++ colon :: ty) with ((fk :: nm :: gs) ++ colon :: ty).
       change [mkHeader (off + 1) off (off + (2 + length gs))] with ([mkHeader (off + 1) off (off + (2 + length gs))] ++ []).
@@ -210,11 +329,12 @@ Proof.
         apply function_head_f; try assumption; [cbn [hd_ok]; unfold nlp; rewrite Hcl; reflexivity | discriminate|].
         rewrite !(fshift_S _ _ _ _ fshift_rettype). apply rettype_type; assumption.
       * apply (Seg_none _ _ cshift_function fshift_rettype).
-        apply clause_no_acc; try assumption; [apply cshift_function | apply fshift_rettype | apply chain_function].
+        apply (rettype_no_acc LTypeScript _ _ GF); try assumption.
+        intros W HW. apply acc_cand_none, tsuf_function, HW.
     + apply (Seg_none _ _ cshift_arrow fshift_brace).
       change (fk :: nm :: gs ++ colon :: ty) with ((fk :: nm :: gs) ++ colon :: ty). apply ar_no_ret.
       * apply ar_no_function; assumption.
-      * apply clause_no_acc; try assumption; [apply cshift_arrow | apply fshift_brace | apply chain_arrow].
+      * apply (rettype_no_acc LTypeScript _ _ (good_arrow LTypeScript)); try assumption. apply tsuf_arrow.
   - (* name = groups => *)
     right. split.
     + apply (Seg_none _ _ cshift_function fshift_rettype).
